@@ -366,7 +366,18 @@ func (w *World) Submit(kind string, signer *hub.Account, net string, meta map[st
 }
 
 func (w *World) SubmitSeq(kind string, signer *hub.Account, num, seq uint64, net string, meta map[string]string, msgs ...sdk.Msg) *PendingTx {
-	bz, err := hub.SignTx(ChainID, signer, num, seq, "", msgs...)
+	gas := uint64(1_000_000_000)
+	if len(net) > 3 && net[:3] == "gas" {
+		// the client set a gas limit: the transaction may run out of gas anywhere in its execution and then fails as a whole
+		var g uint64
+		fmt.Sscanf(net[3:], "%d", &g)
+		if g > 0 {
+			gas = g
+			w.St.Fault("tx_gas_limit")
+		}
+		net = ""
+	}
+	bz, err := hub.SignTxGas(ChainID, signer, num, seq, "", gas, msgs...)
 	if err != nil {
 		w.St.Inc("submit:sign-error")
 		return nil
@@ -441,6 +452,8 @@ func anteRejected(r *TxResult) bool {
 	}
 	switch r.Code {
 	case 4, 5, 13, 32:
+		return true
+	case 11: // out of gas: the transaction did not happen, wherever it stopped
 		return true
 	}
 	return false
